@@ -443,14 +443,51 @@ fn do_panic(w: &Arc<World>, op: OpId) -> ! {
 }
 
 /// Runs the steps of a plain (non-future) closure
+/// A destructor that synchronises with another object
+struct SyncGuard {
+    w: Arc<World>,
+    o: usize,
+    id: OpId,
+    body: Vec<Step>,
+    hs: Handles,
+}
+
+impl Drop for SyncGuard {
+    fn drop(&mut self) {
+        let unwinding = vthread::panicking();
+        if unwinding {
+            self.w.with(|i| i.stats.syncs_from_destructors_while_unwinding += 1);
+        }
+        self.w.hist(|| format!("scope guard: sync #{} on o{}{}", self.id, self.o, if unwinding { " (while the job unwinds)" } else { "" }));
+        let (w, o, id) = (self.w.clone(), self.o, self.id);
+        let body = std::mem::take(&mut self.body);
+        let hs = std::mem::take(&mut self.hs);
+        // (a panic out of a destructor that runs during unwinding would abort the process)
+        if let Err(msg) = rt::catch_unwind(move || nested_sync(&w, o, id, &body, &hs)) {
+            let healthy = self.w.with(|i| !i.objs[self.o].expect_panicked && i.objs[self.o].panic_injected.is_none());
+            if healthy {
+                self.w.fail("C15", "healthy-object-panicked", Some(self.o), Some(self.id), format!("sync from a destructor on the healthy object o{} panicked: {}", self.o, msg.lines().next().unwrap_or("")));
+            }
+        }
+    }
+}
+
 fn run_steps(w: &Arc<World>, op: OpId, p: &mut Payload, steps: &[Step], hs: &mut Handles) {
+    let mut guards: Vec<SyncGuard> = vec![];
     for s in steps {
         w.check_inside(op);
         match s {
             Step::Touch => w.touch(op, p),
             Step::Yield => vthread::yield_now(),
             Step::NestedDesync { o, body, id } => nested_desync(w, *o as usize, *id, body, hs),
-            Step::NestedSync { o, body, id } => nested_sync(w, *o as usize, *id, body, hs),
+            Step::NestedSync { o, body, id } => {
+                if w.case.cfg.guard_syncs {
+                    // performed by a scope guard: when the job is over, or while it unwinds
+                    guards.push(SyncGuard { w: w.clone(), o: *o as usize, id: *id, body: body.clone(), hs: hs.clone() });
+                } else {
+                    nested_sync(w, *o as usize, *id, body, hs)
+                }
+            }
             Step::NestedFutDesync { o, body, id } => {
                 if let Some(f) = nested_fut_desync(w, *o as usize, *id, body, hs) {
                     w.with(|i| i.ops[*id].fut_dropped = true);
@@ -1844,6 +1881,20 @@ fn caller_main(w: Arc<World>, gidx: usize, ci: usize, ops: Vec<Op>, hs: Handles,
                         i.ops[op].call_unwound = true;
                     }
                 });
+                // the damage of a panic stays with its object: a call on an object none of whose operations has panicked must not panic
+                let healthy_obj = w.with(|i| match i.callers[gidx].stage {
+                    Stage::InCall(op) | Stage::SyncWaiting(op) | Stage::Awaiting(op) => {
+                        let o = i.ops[op].obj;
+                        if !i.objs[o].expect_panicked && i.objs[o].panic_injected.is_none() && i.ops[op].kind != Kind::Attempt { Some((o, op)) } else { None }
+                    }
+                    _ => None,
+                });
+                if let Some((o, op)) = healthy_obj {
+                    let first = msg.lines().next().unwrap_or("").to_string();
+                    if !first.contains("dv/src/") && !first.contains("vsched/src/") && !first.contains("dv-injected") {
+                        w.fail("C15", "healthy-object-panicked", Some(o), Some(op), format!("a call on the healthy object o{} panicked: {}", o, first));
+                    }
+                }
                 env.stage(Stage::Idle);
             }
         } else {
